@@ -51,6 +51,25 @@ CHECKS = {
              'during-write / parked.',
         note='unbounded "eventually" is out of reach for monitoring and is '
              'restated as quiescence of the controlled loop'),
+    'C06': dict(
+        category='exploration', design='4/C06',
+        technique='runtime monitor: "answered" oracle at the client boundary '
+                  'at loop quiescence + sys.monitoring step budget (hang '
+                  'detector) + canary connection, over generated hostile '
+                  'inputs',
+        text='Hostile command lines (grammar-derived with hostile leaves, '
+             'byte-mutated, raw) in the not-authenticated/authenticated/'
+             'selected states on IMAP and ManageSieve, hostile stored '
+             'messages fetched with every FETCH attribute and searched with '
+             'every SEARCH key, and concurrent C01-style workloads; each '
+             'complete line must get a tagged completion / * BAD / '
+             'continuation / BYE once the controlled loop is quiescent, '
+             'within 5M monitored steps; never BYE [SERVERBUG], never a close '
+             'without BYE, never a dead connection task; a canary connection '
+             'must still be served.',
+        note='lines < 64 KiB; in-memory transport (no TLS handshake); '
+             'internal errors are classified by exception class + innermost '
+             'pymap function'),
 }
 
 NOT_YET = 'check not built yet in this round (see DESIGN.md section 4)'
